@@ -181,6 +181,16 @@ OpsC07 ==   \* expiry of every stateful credential kind
   \cup (IF CanAuthz THEN {UsePar("A", "own", u, "none") : u \in {x \in Pars : st.S.par[x].present}} ELSE {})
   \cup TickOps
 
+OpsC07b ==  \* the life of ONE grant of each origin (code, password, device) through time with short lifetimes, refreshed at any age
+  (IF Count(st.S.code) = 0 /\ Count(st.S.dev) = 0 /\ Count(st.S.rt) = 0
+   THEN {Authz("A", "code", Full, Full, <<>>, "sent", "none"), Password("A", "ok", "ok", <<"offline", "a">>, <<>>), DevStart("P", "ok", Full, Full, <<>>)}
+   ELSE {})
+  \cup (IF CanMint THEN {Redeem(Owner(k), "ok", k, "same", "none", <<>>, <<>>) : k \in {x \in Codes : st.S.code[x].active}} ELSE {})
+  \cup {DevDecide(d, "accept") : d \in {x \in Devs : st.S.dev[x].ustate = "unused"}}
+  \cup (IF CanMint THEN {DevPoll("P", "ok", d) : d \in {x \in Devs : st.S.dev[x].present}} ELSE {})
+  \cup (IF CanMint THEN {Refresh(st.S.rt[j].client, "ok", j, <<>>, <<>>) : j \in {x \in RTs : st.S.rt[x].active /\ st.S.rt[x].present}} ELSE {})
+  \cup TickOps
+
 OpsC08 ==   \* revocation: every token, every hint, owner / foreign / unauthenticated caller
   (IF CanAuthz THEN {Authz("A", rt, Full, Full, <<>>, "sent", "none") : rt \in {"code", "code_token", "token"}} ELSE {})
   \cup (IF CanMint THEN {Redeem(Owner(k), "ok", k, "same", "none", <<>>, <<>>) : k \in {x \in Codes : st.S.code[x].active}} ELSE {})
@@ -241,7 +251,7 @@ OpsC17 ==   \* pushed authorization requests
   \cup (IF CanAuthz THEN
         {UsePar(c, "own", u, f) : c \in {"A", "B"}, u \in Pars,
              f \in {"none", "redirect_uri", "response_type", "scope", "state", "audience", "response_mode"}}
-        \cup {UsePar("A", kind, 0, "none") : kind \in {"unknown", "foreign_prefix", "absent"}}
+        \cup {UsePar("A", kind, 0, "none") : kind \in {"unknown", "foreign_prefix", "foreign_prefix_full", "absent"}}
         \cup {Authz("A", "code", <<"a">>, <<"a">>, <<>>, "sent", "none")} ELSE {})
   \cup (IF CanMint THEN {Redeem(Owner(k), "ok", k, "same", "none", <<>>, <<>>) : k \in {x \in Codes : st.S.code[x].active}} ELSE {})
   \cup TickOps
@@ -254,7 +264,7 @@ OpsC17b ==  \* the life of ONE request_uri over a longer history: use, second us
 
 Ops ==
   CASE Family = "C01" -> OpsC01 [] Family = "C01b" -> OpsC01b [] Family = "C02" -> OpsC02 [] Family = "C03" -> OpsC03
-    [] Family = "C04" -> OpsC04 [] Family = "C04b" -> OpsC04b [] Family = "C05" -> OpsC05 [] Family = "C05b" -> OpsC05b [] Family = "C05c" -> OpsC05c [] Family = "C07" -> OpsC07
+    [] Family = "C04" -> OpsC04 [] Family = "C04b" -> OpsC04b [] Family = "C05" -> OpsC05 [] Family = "C05b" -> OpsC05b [] Family = "C05c" -> OpsC05c [] Family = "C07" -> OpsC07 [] Family = "C07b" -> OpsC07b
     [] Family = "C08" -> OpsC08 [] Family = "C08b" -> OpsC08b [] Family = "C09" -> OpsC09 [] Family = "C16" -> OpsC16 [] Family = "C16b" -> OpsC16b
     [] Family = "C17" -> OpsC17 [] Family = "C17b" -> OpsC17b
     [] OTHER -> OpsC01 \cup OpsC04 \cup OpsC08 \cup OpsC16 \cup OpsC17
